@@ -318,6 +318,11 @@ func (r Stack) Swap(i, j int) {
 }
 
 func (r *stack) swap(i, j int) {
+	// the bounds are only meaningful
+	// while we hold the lock.
+	r.lock()
+	defer r.unlock()
+
 	if ok := 0 <= i && i < r.ulen(); !ok {
 		return
 	} else if ok = 0 <= j && j < r.ulen(); !ok {
@@ -326,9 +331,6 @@ func (r *stack) swap(i, j int) {
 
 	i++
 	j++
-
-	r.lock()
-	defer r.unlock()
 
 	(*r)[i], (*r)[j] = (*r)[j], (*r)[i]
 }
@@ -721,9 +723,22 @@ func (r Stack) Replace(x any, idx int) (ok bool) {
 
 func (r *stack) replace(x any, i int) (ok bool) {
 	if r != nil {
-		if ok = 0 <= i && i < r.ulen(); ok {
-			(*r)[i+1] = x
-		}
+		r.lock()
+		defer r.unlock()
+
+		ok = r.replaceLocked(x, i)
+	}
+
+	return
+}
+
+/*
+replaceLocked performs the replacement itself; the caller
+must already hold the receiver's lock (see stack.reveal).
+*/
+func (r *stack) replaceLocked(x any, i int) (ok bool) {
+	if ok = 0 <= i && i < r.ulen(); ok {
+		(*r)[i+1] = x
 	}
 
 	return
@@ -760,6 +775,11 @@ func (r Stack) Insert(x any, left int) (ok bool) {
 insert is a private method called by [Stack.Insert].
 */
 func (r *stack) insert(x any, left int) (ok bool) {
+	// length and capacity are only
+	// meaningful while we hold the lock.
+	r.lock()
+	defer r.unlock()
+
 	// note the len before we start
 	var u1 int = r.ulen()
 
@@ -769,9 +789,6 @@ func (r *stack) insert(x any, left int) (ok bool) {
 		//err := errorf("failed: capacity violation")
 		return
 	}
-
-	r.lock()
-	defer r.unlock()
 
 	cfg, _ := r.config()
 
@@ -894,6 +911,11 @@ remove is a private method called by [Stack.Remove].
 */
 func (r *stack) remove(idx int) (slice any, ok bool) {
 
+	// the index is only meaningful
+	// while we hold the lock.
+	r.lock()
+	defer r.unlock()
+
 	var found bool
 	var index int
 	if slice, index, found = r.index(idx); found {
@@ -907,9 +929,6 @@ func (r *stack) remove(idx int) (slice any, ok bool) {
 
 		var R stack = make(stack, 0)
 		R = append(R, cfg)
-
-		r.lock()
-		defer r.unlock()
 
 		// Gather what we want to keep.
 		for i := 1; i < r.len(); i++ {
@@ -2120,7 +2139,8 @@ func (r *stack) revealDescend(inner Stack, idx int) (err error) {
 		// already present at index idx
 		// within the receiver instance.
 		if updated != nil {
-			r.replace(updated, idx)
+			// reveal (our caller) holds the lock
+			r.replaceLocked(updated, idx)
 		}
 
 		// Begin second pass-over before
